@@ -5,6 +5,19 @@ HERE = os.path.dirname(os.path.dirname(os.path.abspath(__file__)))
 ALL = ["C%02d" % i for i in range(1, 21)]
 
 CHECKS = {
+ "C15": dict(
+  category="model_checking",
+  text="DocSplit.tla: a docstring as a sequence of line records (prose with opaque ids, blank, indented prose, doctest, section "
+       "lines incl. the section's own blank separators) = header + section(style) + footer at indentation 0..2; Split and Restyle "
+       "as operators; TLC checks SplitConcat, HeaderClean and HeaderKept over all 648 (header shape, footer shape, source style, "
+       "target style, indentation) behaviours. Binding: every behaviour x 2 parameter sets is concretised -- the section is "
+       "produced by the real emitter in the source style -- then split by the real parse_docstring_into_header_args_footer and "
+       "converted by the real restyle path (parse_docstring -> docstring.emit with _internal.original_doc_str); verdicts: the "
+       "three parts concatenate to the original exactly, no section token line in header/footer, every header prose line occurs "
+       "in order in the converted text, no prose line is absorbed into a parsed type or default.",
+  design_ref="DESIGN.md section 4, C15",
+  note="Trusted: the concretisation of line records; prose is drawn from fixed sentences free of section tokens.",
+  technique="TLA+ line-record model checked by TLC; every behaviour replayed through the real splitter and restyle path"),
  "C16": dict(
   category="model_checking",
   text="OpenApi.tla: a behaviour adds 1..3 models (5 name shapes x explicit/inferred primary key) one by one (AddModel = gen_routes + "
